@@ -361,3 +361,33 @@ func (verifROStore) GetChunk(id ChunkID) (*Chunk, error) { return nil, ChunkMiss
 func (verifROStore) HasChunk(id ChunkID) (bool, error)   { return false, nil }
 func (verifROStore) Close() error                        { return nil }
 func (verifROStore) String() string                      { return "ro" }
+
+// VerifC11_ChainRecovers: the outermost layers of the chain the chunk server builds
+// (de-duplication queue over a router over a member) asked twice for the same chunk, the member
+// failing or missing the chunk on the first request only (solver's choice): the second request
+// asks the member again and delivers - a finished request's failure is not replayed.
+func VerifC11_ChainRecovers() {
+	st := &verifStore{}
+	id := verifID(0x11)
+	first := vChoose("first-outcome", 3) // 0 ok, 1 store failure, 2 missing
+	if first == 1 {
+		st.failGet = map[int]bool{0: true}
+	}
+	if first != 2 {
+		st.entries = append(st.entries, verifEntry{id: id, data: []byte{0x61}})
+	}
+	chain := NewDedupQueue(NewStoreRouter(st))
+	_, err1 := chain.GetChunk(id)
+	vCover("first-returned")
+	if first == 0 {
+		vAssert(err1 == nil, "healthy chain failed")
+	} else {
+		vAssert(err1 != nil, "failure not reported")
+	}
+	if first == 2 {
+		st.entries = append(st.entries, verifEntry{id: id, data: []byte{0x61}}) // the chunk arrives upstream
+	}
+	c, err2 := chain.GetChunk(id)
+	vAssert(err2 == nil && c != nil, "the chain keeps failing after the member recovered (a finished request's error was replayed?)")
+	vAssert(st.gets == 2, "the second request did not reach the member")
+}
